@@ -80,6 +80,8 @@ pub struct GenParams {
     pub stop_den: u32,
     /// draw some names from a pool of CJK words (some begin with the first character of a Han copula)
     pub cjk_names: bool,
+    /// draw names from a pool of a thousand numbered names (containers with hundreds of DISTINCT elements)
+    pub many_names: bool,
 }
 
 const NAMES: [&str; 14] = ["A", "B", "C", "D", "robin", "bird", "x1", "Z9", "E", "F", "G", "H", "tweety", "k2"];
@@ -93,7 +95,7 @@ fn gen_atom(ch: &mut Choices, p: &GenParams) -> Desc {
         2 => Desc::Atom(A_DVAR, gen_name(ch, p)),
         3 => Desc::Atom(A_QVAR, gen_name(ch, p)),
         4 => Desc::Atom(A_OP, gen_name(ch, p)),
-        5 => Desc::Interval(ch.choose(4) as usize),
+        5 => Desc::Interval([0usize, 1, 2, 3, 7, 1 << 20, usize::MAX - 1, usize::MAX][ch.weighted(&[20, 20, 20, 20, 8, 4, 4, 4])]),
         _ => Desc::Placeholder,
     }
 }
@@ -101,6 +103,13 @@ fn gen_atom(ch: &mut Choices, p: &GenParams) -> Desc {
 const CJK_NAMES: [&str; 8] = ["将军", "现场", "曾经", "具体", "雨", "人", "湿地", "我"];
 
 fn gen_name(ch: &mut Choices, p: &GenParams) -> String {
+    if p.many_names {
+        return format!("n{}", ch.choose(1000));
+    }
+    if p.exotic && ch.chance(1, 40) {
+        // a very long name
+        return "longname".repeat(40);
+    }
     if p.cjk_names && ch.chance(1, 3) {
         return CJK_NAMES[ch.choose(CJK_NAMES.len() as u32) as usize].to_string();
     }
